@@ -115,7 +115,7 @@ def run_case(case, agg, tag):
             return None
         comps = []
         for i, n in enumerate(names):
-            ref = f'#"{n}"' if (" " in n) else f"#{n}"
+            ref = f'#"{n}"' if (" " in n or "." in n) else f"#{n}"  # (a name with a space or a dot has to be quoted)
             comps.append(f"@v{i} = {ref} @w{i} = #{i}")
         # with skip_blank_lines=False blank records reach the match part too: every header reads as absent there
         keep_blanks = case.get("keep_blanks", False) and not via_csvpaths
